@@ -566,7 +566,7 @@ func sig(in Input, tr []Ev) string {
 func shape(in Input, tr []Ev) string {
 	var b strings.Builder
 	if in.Plumb != nil {
-		return "plumb:" + in.Plumb.Base + ":" + strings.Join(in.Plumb.Steps, ",") + ":" + in.Plumb.Body + ":" + in.Plumb.Finish
+		return fmt.Sprintf("plumb:%s:%s:%s:%s:%v", in.Plumb.Base, strings.Join(in.Plumb.Steps, ","), in.Plumb.Body, in.Plumb.Finish, in.Plumb.Warm)
 	}
 	for i, p := range in.Progs {
 		if i < len(in.Handles) && in.Handles[i] == "session" {
@@ -916,6 +916,21 @@ func main() {
 	for _, pl := range ex {
 		pl := pl
 		add("plumb-x", Input{Plumb: &pl})
+	}
+	// the same derivations with the statement texts first used OUTSIDE any transaction (pool-level
+	// cache entries that a transaction then has to bind to itself)
+	for _, pl := range append(allPlumb(maxLen-1), ex...) {
+		pl := pl
+		inTx := false
+		for _, st := range pl.Steps {
+			if strings.HasPrefix(st, "begin") || strings.HasPrefix(st, "block") {
+				inTx = true
+			}
+		}
+		if inTx && (pl.Base == "prepared" || strings.Contains(strings.Join(pl.Steps, ","), "sessprep")) {
+			pl.Warm = true
+			add("plumb-x", Input{Plumb: &pl})
+		}
 	}
 	if a.Tier != "thorough" {
 		ex3 := exoticPlumb(maxLen)
